@@ -196,8 +196,8 @@ def g_obstacle(rng, oid, role, opts):
 # ---- histories: what happens to an obstacle through its public API between construction and the query
 HIST_OPS = {"dynamic": ["update_initial_state", "update_initial_state", "update_initial_state+update_prediction",
                         "update_initial_state+update_prediction", "set_initial_state", "set_prediction",
-                        "update_prediction", "set_shape", "translate_rotate"],
-            "static": ["set_initial_state", "set_initial_state", "set_shape", "translate_rotate"],
+                        "update_prediction", "set_shape", "translate_rotate", "edit_initial_state"],
+            "static": ["set_initial_state", "set_initial_state", "set_shape", "translate_rotate", "edit_initial_state"],
             "phantom": ["translate_rotate", "set_prediction"],
             "env": ["translate_rotate", "set_shape"]}
 
@@ -248,6 +248,14 @@ def apply_history(ob, hist, opts):
         elif op == "set_initial_state":
             t = ob.initial_state.time_step + rng.choice([0, 0, 1])
             ob.initial_state = g_init(rng, t, opts)
+        elif op == "edit_initial_state":
+            # the state the obstacle holds is taken out, edited, and handed back through the setter: the SAME object
+            st = ob.initial_state
+            fresh = g_init(rng, st.time_step, opts)
+            st.position = fresh.position
+            if not L.derived_orientation(st) and hasattr(fresh, "orientation"):
+                st.orientation = fresh.orientation
+            ob.initial_state = st
         elif op in ("set_prediction", "update_prediction"):
             t = ob.initial_state.time_step if role == "dynamic" else 0
             k = rng.random()
